@@ -11,6 +11,7 @@ pub mod c13;
 pub mod c14;
 pub mod c15;
 pub mod c16;
+pub mod c17;
 pub mod common;
 
 use crate::engine::Tier;
@@ -31,6 +32,7 @@ pub fn run(prop: &str, tier: Tier, seed: u64) -> i32 {
         "C14" => c14::run(tier, seed),
         "C15" => c15::run(tier, seed),
         "C16" => c16::run(tier, seed),
+        "C17" => c17::run(tier, seed),
         _ => {
             eprintln!("unknown property {prop}");
             2
@@ -61,6 +63,7 @@ pub fn replay(prop: &str, path: &str) -> i32 {
         "C14" => c14::replay(&doc),
         "C15" => c15::replay(&doc),
         "C16" => c16::replay(&doc),
+        "C17" => c17::replay(&doc),
         _ => 2,
     }
 }
